@@ -37,6 +37,15 @@ THEOREMS = [
     "BeyondVerif.C03.changeScale_eq_hash",
     "BeyondVerif.C03.eop_policy_spec",
     "BeyondVerif.C03.eop_lookup_day",
+    "BeyondVerif.C03.tai_utc_lookup_spec",
+    "BeyondVerif.C03.tai_utc_at_entry",
+    "BeyondVerif.C03.tai_utc_between",
+    "BeyondVerif.C03.tai_utc_after_last",
+    "BeyondVerif.C03.tai_utc_before_first",
+    "BeyondVerif.C03.tai_utc_of_day",
+    "BeyondVerif.C03.eop_record_of_day",
+    "BeyondVerif.C03.eop_record_spec",
+    "BeyondVerif.C03.leap_table_lookup",
     "BeyondVerif.C03.add_clock",
     "BeyondVerif.C03.add_sub",
     "BeyondVerif.C03.add_sub_const_scales",
@@ -176,6 +185,39 @@ def leap_at(day):
 
 def leap_days():
     return [m for m, _ in tables()[0] if m >= 41317]
+
+
+def table_abscissae(rng=None, all_days=False, n_days=150):
+    """tick numerators (mjd * D) AT the tables' own abscissae — the places where a lookup changes its answer:
+    every entry of tai-utc.dat exactly at 00:00:00, one microsecond (10 ticks) and one tick-of-the-double (1 tick is below the
+    resolution of a float mjd, so 10 ticks) before and after, half a day before/after; the first and last entry, the day
+    before the first entry; the first / last day of the finals files and their neighbours; the day boundaries of the
+    finals files (all of them when `all_days`, else a random sample plus every leap-second day).
+    Returned as a sorted list of distinct integers; whole days are `num % DAY_T == 0`."""
+    leap, ut1, first, last = tables()
+    days = {m for m, _ in leap}
+    days |= {leap[0][0] - 1, leap[0][0] + 1, leap[-1][0] + 1, leap[-1][0] + 400}
+    days |= {first - 1, first, first + 1, first + 2, last - 1, last, last + 1, last + 2}
+    holes = [d for d in range(first, last + 1) if d not in ut1]
+    days |= set(holes[:5]) | {d + 1 for d in holes[:5]}
+    if all_days:
+        days |= set(range(first - 2, last + 3))
+    elif rng is not None:
+        days |= {rng.randint(first, last) for _ in range(n_days)}
+    nums = set()
+    for d in days:
+        for off in (-DAY_T // 2, -10**7, -10, 0, 10, 10**7, DAY_T // 2):
+            nums.add(d * DAY_T + off)
+    return sorted(nums)
+
+
+def leap_before(day):
+    """the table entry in force on `day` as (entry mjd, ticks), None before the first entry"""
+    e = None
+    for mjd, val in tables()[0]:
+        if mjd <= day:
+            e = (mjd, val)
+    return e
 
 
 def setup(policy="pass"):
@@ -612,6 +654,171 @@ def check_tables(out, days):
         set_policy("pass")
 
 
+def lookup_position(num):
+    """where an abscissa lies relative to the tables (part of the family of a lookup failure)"""
+    day, tod = divmod(num, DAY_T)
+    entries = {m for m, _ in tables()[0]}
+    if tod == 0:
+        return "at-leap-entry" if day in entries else "at-day-start"
+    if tod <= 10**7:
+        return "after-leap-entry" if day in entries else "after-day-start"
+    if tod >= DAY_T - 10**7:
+        return "before-leap-entry" if day + 1 in entries else "before-day-end"
+    return "mid-day"
+
+
+def check_lookup(out, num):
+    """the real lookups at `mjd = num / D` (a double) against the IERS file columns read independently:
+    `SimpleEopDatabase.tai_utc` = the value of the last entry of tai-utc.dat whose date is <= mjd (KeyError before the
+    first), `SimpleEopDatabase.finals` = the record of day floor(mjd) (KeyError outside / in a hole),
+    `EopDb.get` = both, or the policy"""
+    from beyond.dates.eop import EopDb
+    from beyond.errors import EopError
+    leap, ut1, first, last = tables()
+    mjd = num / DAY_T
+    day = num // DAY_T
+    if math.floor(mjd) != day:
+        return    # the double cannot tell this abscissa from the neighbouring day
+    pos = lookup_position(num)
+    inp = {"lookup_num": num, "mjd": repr(mjd), "position": pos}
+    out.count(key=("lookup", num), kind="lookup", position=pos, covered=(day in ut1))
+    db = EopDb.db()
+    exp_t = leap_at(day)
+    try:
+        got = db.tai_utc(mjd)
+        got_t = round(got * 1e7)
+        if abs(got * 1e7 - got_t) > 1e-3:
+            got_t = got * 1e7
+    except KeyError:
+        got_t = None
+    if got_t != exp_t:
+        out.fail(f"eop-lookup:tai-utc:{pos}", "SimpleEopDatabase.tai_utc(mjd) is not the value of the last tai-utc.dat entry whose date is <= mjd", inp,
+                 observed=got_t, expected=exp_t)
+    exp_u = ut1.get(day)
+    try:
+        rec = db.finals(mjd)
+        got_u, got_day = round(rec["ut1_utc"] * 1e7), rec["mjd"]
+    except KeyError:
+        got_u, got_day = None, None
+    if got_u != exp_u or (got_day is not None and got_day != day):
+        out.fail(f"eop-lookup:finals:{pos}", "SimpleEopDatabase.finals(mjd) is not the record of day floor(mjd)", inp,
+                 observed=(got_day, got_u), expected=(day, exp_u))
+    set_policy("error")
+    try:
+        e = EopDb.get(mjd)
+        got = (round(e.tai_utc * 1e7), round(e.ut1_utc * 1e7))
+    except (KeyError, EopError):
+        got = None
+    finally:
+        set_policy("pass")
+    exp = None if exp_t is None or exp_u is None else (exp_t, exp_u)
+    if got != exp:
+        out.fail(f"eop-lookup:get:{pos}", "EopDb.get(mjd) is not (TAI-UTC, UT1-UTC) as tabulated for day floor(mjd) / the policy for an uncovered date", inp,
+                 observed=got, expected=exp)
+
+
+LEAP_DAY_DELTAS = (0, 1, 10**6, 3600 * 10**6, -1, -10**6)
+
+
+def check_leap_day_date(out, day, delta):
+    """a UTC `Date` at 00:00:00 (+ delta us) of a day listed in tai-utc.dat: from 00:00:00.000000 on the new TAI-UTC
+    applies, up to 23:59:59.999999 of the eve the old one. Only statements that are unambiguous there: the record of the
+    UTC date itself, UTC -> TAI/TT/GPS, the same instant written down directly in TAI, and arithmetic after 00:00:00."""
+    from beyond.dates import Date, timedelta
+    us = day * DAY_US + delta
+    exp = leap_at(us // DAY_US)
+    pos = "at-leap-entry" if delta == 0 else "after-leap-entry" if delta > 0 else "before-leap-entry"
+    forms = [("datetime", lambda: mkdate(us, "UTC"))]
+    if delta == 0:
+        forms += [("int-mjd", lambda: Date(day)), ("day-seconds", lambda: Date(day, 0.0)), ("calendar", lambda: Date(*dt_of(us).timetuple()[:3]))]
+    for form, build in forms:
+        inp = {"leap_day": day, "delta_us": delta, "form": form, "clock": str(dt_of(us)) + " UTC"}
+        out.count(key=("leapdate", day, delta, form), kind="leap-day-date", position=pos, form=form)
+        a = build()
+        if round(a.eop.tai_utc * 1e7) != exp:
+            out.fail(f"leap-day:record:{pos}", "the EOP record of a UTC date does not carry the TAI-UTC tabulated for its day", inp,
+                     observed=a.eop.tai_utc, expected=exp / 1e7)
+        if td_us(a.datetime - dt_of(us)) != 0:
+            out.fail(f"leap-day:clock:{pos}", "the date does not show the clock reading it was built from", inp, observed=str(a.datetime))
+        for sb, const in (("TAI", 0), ("TT", 321840000), ("GPS", -190000000)):
+            b = a.change_scale(sb)
+            off = td_us(b.datetime - a.datetime)
+            if off * TICK != exp + const:
+                out.fail(f"leap-day:offset:{pos}", f"{sb}-UTC is not the tabulated TAI-UTC of that day (+ the constant)", dict(inp, to=sb),
+                         observed=f"{off} us", expected=f"{(exp + const) / TICK} us")
+            if not (a == b and hash(a) == hash(b) and td_us(b - a) == 0):
+                out.fail(f"leap-day:instant:{pos}", "converted date is not the same instant (==, hash, -)", dict(inp, to=sb),
+                         observed=(a == b, hash(a) == hash(b), td_us(b - a)))
+        ref = mkdate(us + exp // TICK, "TAI")
+        if not (a == ref and hash(a) == hash(ref) and td_us(a - ref) == 0):
+            out.fail(f"leap-day:same-instant-in-tai:{pos}", "the UTC date is not the instant UTC clock + tabulated TAI-UTC written down in TAI", inp,
+                     observed=(a == ref, td_us(a - ref)), expected=(True, 0))
+        if delta >= 0:
+            for t in (1, 5 * 3600 * 10**6, DAY_US - delta - 1):
+                e = a + timedelta(microseconds=t)
+                if td_us(e - a) != t or td_us(e.datetime - a.datetime) != t:
+                    out.fail(f"leap-day:add-sub:{pos}", "(d+t)-d != t in UTC although no leap second intervenes (both on the same day after 00:00:00)",
+                             dict(inp, t_us=t), observed=(td_us(e - a), td_us(e.datetime - a.datetime)), expected=t)
+
+
+def check_day_boundary_date(out, day, delta):
+    """a UTC `Date` at a day boundary of the finals files carries the record tabulated for its UTC day, and UT1-UTC
+    measured on the clocks is that column (to the microsecond resolution of a clock reading)"""
+    _, ut1, first, last = tables()
+    us = day * DAY_US + delta
+    d = us // DAY_US
+    if d not in ut1:
+        return
+    inp = {"boundary_day": day, "delta_us": delta, "clock": str(dt_of(us)) + " UTC"}
+    pos = "at-day-start" if delta == 0 else "after-day-start" if delta > 0 else "before-day-end"
+    out.count(key=("daydate", day, delta), kind="day-boundary-date", position=pos)
+    a = mkdate(us, "UTC")
+    if round(a.eop.ut1_utc * 1e7) != ut1[d] or round(a.eop.tai_utc * 1e7) != leap_at(d):
+        out.fail(f"day-boundary:record:{pos}", "the EOP record of a UTC date is not the one tabulated for its day", inp,
+                 observed=(a.eop.tai_utc, a.eop.ut1_utc), expected=(leap_at(d) / 1e7, ut1[d] / 1e7))
+
+
+def range_grid():
+    """(scale, start clock us, step us, duration us, inclusive, stop given as timedelta)"""
+    us = 57000 * DAY_US + 3600 * 10**6
+    n = 0
+    for scale in ("TAI", "UTC"):
+        for mag in (1, 300000, 10**6, 15 * 10**6, DAY_US, 2 * DAY_US, 3 * DAY_US + 1):
+            for sgn in (1, -1):
+                for k in (0, 1, 3):
+                    for r in (0, 1, -1, mag // 2, mag - 1, DAY_US, 250000):
+                        if not (0 <= r < mag) and r != -1:
+                            continue
+                        dur_abs = k * mag + r
+                        if dur_abs < 0:
+                            continue
+                        for inclusive in (True, False):
+                            n += 1
+                            yield scale, us, sgn * mag, sgn * dur_abs, inclusive, (n % 2 == 0)
+
+
+def check_range_grid(out):
+    """DateRange on its own boundaries: durations that are exact multiples of the step, one microsecond short / over,
+    whole-day and sub-second remainders, steps longer than a day, both signs, inclusive or not, stop as date or timedelta"""
+    for scale, us, step, dur, inclusive, stop_as_td in range_grid():
+        check_range(out, None, scale, us, replay=(step, dur, inclusive, stop_as_td))
+
+
+def check_boundaries(out, rng, big):
+    for num in reversed(table_abscissae(rng, all_days=big, n_days=150)):
+        check_lookup(out, num)
+    _, ut1, first, last = tables()
+    for day in leap_days():
+        if first + 1 <= day <= last - 1:
+            for delta in LEAP_DAY_DELTAS:
+                check_leap_day_date(out, day, delta)
+    days = range(first + 1, last) if big else sorted({rng.randint(first + 1, last - 1) for _ in range(120)} | {first + 1, last - 1, last})
+    for day in days:
+        for delta in (0, 1, -1):
+            check_day_boundary_date(out, day, delta)
+    check_range_grid(out)
+
+
 def oracle(ctx, widened):
     setup()
     out = Outcome()
@@ -634,6 +841,7 @@ def oracle(ctx, widened):
         scale = rng.choice(UNIFORM)
         check_range(out, rng, scale, gen_label(rng, scale))
     check_policy(out, rng)
+    check_boundaries(out, rng, big)
     _, _, first, last = tables()
     days = range(first, last + 1) if big else [rng.randint(first, last) for _ in range(400)] + [first, last]
     check_tables(out, days)
@@ -647,7 +855,13 @@ def replay(f):
     i = f["input"]
     import random
     rng = random.Random(0)
-    if "to" in i:
+    if "lookup_num" in i:
+        check_lookup(out, i["lookup_num"])
+    elif "leap_day" in i:
+        check_leap_day_date(out, i["leap_day"], i["delta_us"])
+    elif "boundary_day" in i:
+        check_day_boundary_date(out, i["boundary_day"], i["delta_us"])
+    elif "to" in i:
         check_pair(out, rng, i["scale"], i["to"], i["clock_us"])
     elif "step_us" in i:
         check_range(out, rng, i["scale"], i["clock_us"], replay=(i["step_us"], i["dur_us"], i["inclusive"], i["stop_as_timedelta"]))
@@ -822,6 +1036,11 @@ def same_reply(real, model, exact):
         return min(u, DAY_US - u) <= 3
     if near(a) or near(b):
         tol = [max(tol[0], 5000), tol[1], max(tol[2], 50000), tol[3], 10**5, tol[5]] if a[1] == "UT1" else tol[:4] + [10**5] + tol[5:]
+        # ... and when that midnight is the date of an entry of tai-utc.dat, the neighbouring record of a UT1 / TDB date also
+        # differs by the leap second, in both columns (UT1-UTC jumps with UTC)
+        entries = {m for m, _ in tables()[0]}
+        if not exact and any(((int(t[2]) - int(t[5]) // TICK + DAY_US // 2) // DAY_US) in entries for t in (a, b) if near(t)):
+            tol[3], tol[4] = 10**7, 10**7 + 10**5
     return all(abs(int(x) - int(y)) <= t for x, y, t in zip(a[2:], b[2:], tol))
 
 
@@ -886,6 +1105,33 @@ def correspondence(ctx):
             cases.append((f"d3add pass {sc} {us} {t}", (lambda sc=sc, us=us, t=t: real_try(lambda: mkdate(us, sc) + timedelta(microseconds=t))), not nonuni(sc), "add"))
             if rng.random() < 0.3:
                 cases.append((f"d3add pass {sc} {us} {-t}", (lambda sc=sc, us=us, t=t: real_try(lambda: mkdate(us, sc) - timedelta(microseconds=t))), not nonuni(sc), "sub-timedelta"))
+    # the same operations AT the tables' abscissae: every leap-second day inside the finals files, exactly 00:00:00 of the
+    # UTC reading, +-1 us, +-1 s (UTC dates), +-5 us, +-1 s (other scales: a double decides the UTC day within 3 us), and the
+    # label's own midnight of that day; every constructor form
+    for ld in leap_days():
+        if not (first + 2 <= ld <= last - 2):
+            continue
+        for sc in SCALES:
+            deltas = (-10**6, -1, 0, 1, 10**6) if sc == "UTC" else (-10**6, -5, 5, 10**6)
+            labels = [ld * DAY_US + approx_minus_utc(sc, ld if dl >= 0 else ld - 1) + dl for dl in deltas]
+            if sc not in ("UTC", "UT1"):
+                labels += [ld * DAY_US + dl for dl in (-1, 0, 1)]
+            for us in labels:
+                cases.append((f"d3dt pass {sc} {us}", (lambda sc=sc, us=us: real_try(lambda: mkdate(us, sc))), not nonuni(sc), "ctor-datetime-at-leap-entry"))
+                # a UT1 / TDB date whose UTC reading is within a fraction of a microsecond of midnight gets either neighbouring
+                # record (the day is decided by a double, NOT_COVERED): from exactly 00:00:00 UTC go to the uniform scales only
+                sb = rng.choice(UNIFORM if sc == "UTC" and min(us % DAY_US, DAY_US - us % DAY_US) <= 1 else SCALES)
+                cases.append((f"d3chg pass {sc} {us} {sb}", (lambda sc=sc, sb=sb, us=us: real_try(lambda: mkdate(us, sc).change_scale(sb))), not nonuni(sc, sb), "change-scale-at-leap-entry"))
+                t = rng.choice([1, -1, 10**6, -10**6, 3600 * 10**6, gen_td(rng)])
+                cases.append((f"d3add pass {sc} {us - t} {t}", (lambda sc=sc, us=us, t=t: real_try(lambda: mkdate(us - t, sc) + timedelta(microseconds=t))), not nonuni(sc), "add-onto-leap-entry"))
+        for pol in ("pass", "error"):
+            def th(pol=pol, ld=ld):
+                set_policy(pol)
+                try:
+                    return real_try(lambda: Date(ld))
+                finally:
+                    set_policy("pass")
+            cases.append((f"d3mk {pol} UTC {ld} 0", th, True, "ctor-int-mjd-at-leap-entry"))
     lines = [c[0] for c in cases]
     model = core.Driver(ID).run(lines)
     for (line, th, exact, kind), m in zip(cases, model):
@@ -981,8 +1227,60 @@ def correspondence(ctx):
         log.removeHandler(grab)
         log.setLevel(old_level)
 
+    # the two lookups of SimpleEopDatabase separately and EopDb.get, AT the tables' own abscissae (every entry of tai-utc.dat
+    # exactly, +-1 us, +-1 s, +-half a day; first / last entry; the day before the first; first / last day of the finals
+    # files, holes; day boundaries — all of them in the thorough tier)
+    db = EopDb.db()
+    nums = [n for n in table_abscissae(rng, all_days=ctx.thorough, n_days=200) if math.floor(n / DAY_T) == n // DAY_T]
+    pols = [rng.choice(["pass", "warning", "error"]) for _ in nums]
+    m_tai = core.Driver(ID).run([f"d3tai {n}" for n in nums])
+    m_fin = core.Driver(ID).run([f"d3fin {n}" for n in nums])
+    m_get = core.Driver(ID).run([f"d3eop {p} {n}" for p, n in zip(pols, nums)])
+    log.addHandler(grab)
+    log.setLevel(logging.WARNING)
+    try:
+        for n, pol, mt, mf, mg in zip(nums, pols, m_tai, m_fin, m_get):
+            mjd = n / DAY_T
+            pos = lookup_position(n)
+            try:
+                real = "ok %d" % round(db.tai_utc(mjd) * 1e7)
+            except KeyError:
+                real = "err key"
+            out.count(key=("tai", n), kind="tai-utc-lookup", position=pos, reply=real.split()[0])
+            if real != mt:
+                out.fail("tai-utc-lookup:" + pos, "SimpleEopDatabase.tai_utc differs from taiUtcAt on the regenerated table", f"d3tai {n}", observed=real, expected=mt)
+            try:
+                real = "ok %d" % round(db.finals(mjd)["ut1_utc"] * 1e7)
+            except KeyError:
+                real = "err key"
+            out.count(key=("fin", n), kind="finals-lookup", position=pos, reply=real.split()[0])
+            if real != mf:
+                out.fail("finals-lookup:" + pos, "SimpleEopDatabase.finals differs from the day lookup of the model", f"d3fin {n}", observed=real, expected=mf)
+            set_policy(pol)
+            grab.records.clear()
+            try:
+                e = EopDb.get(mjd)
+                zero = e.tai_utc == 0 and e.ut1_utc == 0 and e.x == 0
+                if grab.records:
+                    real = "zero-warned" if zero else "found-but-warned"
+                elif zero and not (first <= n // DAY_T <= last and leap_at(n // DAY_T) is not None):
+                    real = "zero-silent"
+                else:
+                    real = "found %d %d" % (round(e.tai_utc * 1e7), round(e.ut1_utc * 1e7))
+            except Exception:
+                real = "raised"
+            out.count(key=("eopb", pol, n), kind="eop-get-at-abscissa", position=pos, reply=real.split()[0])
+            if real != mg:
+                out.fail("eop-get:" + pos, "EopDb.get differs from the model (day lookup / policy) at a table abscissa", f"d3eop {pol} {n}", observed=real, expected=mg)
+    finally:
+        set_policy("pass")
+        log.removeHandler(grab)
+        log.setLevel(old_level)
+
     # DateRange vs the model on instants
     rng_cases = []
+    for sc, us, step, dur, incl, _ in range_grid():
+        rng_cases.append((sc, us, dur, step, incl, [us - 1, us, us + 1, us + dur - 1, us + dur, us + dur + 1, us + dur // 2]))
     for _ in range(300 * N):
         sc = rng.choice(UNIFORM)
         us = gen_label(rng, sc)
